@@ -782,7 +782,8 @@ PROPS = {
     "C13": dict(
         retry_on_failure=True,
         endpoint_bin=True,
-        suites=["c13", "c13bin"],
+        wizard_bin=True,
+        suites=["c13", "c13bin", "c13wizard"],
         judge=judge_c13,
         level="proof",
         rule="user names / passwords over an alphabet with quotes, backslash, #, =, brackets, tab, newline, CR, BS, FF, DEL, U+0001, "
@@ -795,7 +796,13 @@ PROPS = {
              "of host classes. Binary (suite c13bin): the real endpoint process is started with 27 (thorough 80) of those start-up "
              "configurations written as settings files (listening / exited, compared with the same model), with 4 invalid TLS hosts files, "
              "and run with `-c <name> -a <address>` for 4 clients of a credentials file written by the wizard's composer (names differing "
-             "by case, passwords with quotes, backslashes, blanks, non-ASCII): the printed pair must be that client's own",
+             "by case, passwords with quotes, backslashes, blanks, non-ASCII): the printed pair must be that client's own"
+             " The wizard itself (suite c13wizard): the real setup_wizard binary, built from the working tree, run non-interactively for "
+             "127.0.0.1, 0.0.0.0, [::1] and [::] with a free port, four credential pairs (spaces, quotes, backslash, non-ASCII, colons in the "
+             "password) and a host name; the real endpoint binary started in the wizard's directory from the files it wrote must come up, "
+             "listen on the address asked for, present the generated certificate for the host name and answer health checks with six "
+             "Proxy-Authorization tokens (right, longer password, empty password, other case of the user, trimmed password, none) as the "
+             "registry model does",
         explanation="theorems decode_encode_basic, literal_verbatim, basic_plain_verbatim, load_ok_iff, empty_rejected, base64_injective, "
                     "accepted_iff_listed, accepted_token_identifies_pair, refuses_to_start_iff about TT/Model/Creds.lean",
         trusted=["toml_edit for everything outside single-line basic/literal strings (multi-line strings are outside the model)",
@@ -911,7 +918,9 @@ PROPS = {
              "record/handshake/ClientHello prefixes; SOCKS5 selection/reply prefixes), presented to: the UDP stream decoder (two "
              "segmentations), the ICMP request decoder, skip_ipv4/ipv6_header, ICMP v4/v6 deserialize + responded_echo_request, "
              "extract_client_random, the SOCKS5 dialogue; random fragment soups as rules and credentials files through the real loader; "
-             "all under catch_unwind, all answers also compared with the Lean models"
+             "all under catch_unwind, all answers also compared with the Lean models;"
+             " ICMP / ICMPv6 error messages whose quoted datagram ends two bytes before ... twelve bytes after the end of its IP header "
+             "(every IPv4 header length 5..15, protocols ICMP and UDP; IPv6 with no, one, two extension headers, a routing header, UDP)"
              " Plus every declared UDP record length 0..90 with enough bytes behind it, and the connection filter with every rule "
              "prefix length 0..4 x mask length 0..6 against client randoms of 0, 1, 2, 3 and 32 bytes."
              " Live part (suite c09live, no model): about 8500 (thorough 34000) datagrams to the real QUIC listener - every short and "
